@@ -34,6 +34,7 @@ struct GenKnobs {
     int p_empty = 25;           // percent of containers left empty
     bool names_nul = true;      // allow 0x00 in names
     int max_kids = 5;           // children per container: 1..max_kids
+    int wide = 0;               // > 0: one container of the document gets this many scalar children (counts beyond narrow counters)
 };
 
 // piece boundaries for the writer contract (C04)
